@@ -235,4 +235,7 @@ def jobs(tier):
         J.append(Job(f'forward:integer_typed_inputs:domain={kind}', lambda c, k=kind: integer_typed_inputs(c, k), 'B', FL, nnum=3))
     J.append(Job('gradient:range_geometry_not_identity', range_not_identity, 'Pbox', GL))
     J.append(Job('forward:applied_to_distribution_only_renames', apply_to_distribution, 'Pbox', [f'{M}:Model.forward']))
+    # PDE-based models (assemble / solve / observe and the gradient dispatch through the PDE's Jacobian or gradient hook): contracts live with C18
+    from contracts import C18 as _c18
+    J += [j for j in _c18.jobs(tier) if j.id.startswith('PDEModel')]
     return J
